@@ -17,8 +17,6 @@ use alloc::vec::Vec;
 #[cfg(feature = "zlib")]
 use miniz_oxide::inflate::decompress_to_vec_zlib_with_limit;
 
-use rustzx_z80::Z80Bus;
-
 const ZXST_MID_128K: u32 = 2;
 
 const ZXSTZF_EILAST: u32 = 1;
@@ -173,11 +171,8 @@ fn process_z80r_block<H: Host>(emulator: &mut Emulator<H>, block_data: &[u8]) ->
     // chFlags
     let flags = block_data[34] as u32;
     emulator.cpu.skip_interrupt = flags & ZXSTZF_EILAST != 0;
+    // PC of a halted CPU stays on the HALT instruction (same as in the CPU core)
     emulator.cpu.halted = flags & ZXSTZF_HALTED != 0;
-
-    if emulator.cpu.halted {
-        emulator.cpu.regs.inc_pc();
-    }
 
     // v1.5
     if flags & ZXSTZF_FSET != 0 {
@@ -217,12 +212,19 @@ fn process_spcr_block<H: Host>(
     // Only 128 and 48k models supported currently. Skipping block_data[2] (union)
 
     // chFe
-    emulator.controller.write_io(0x0fe, block_data[3]);
+    // Last value written to port 0xFE is restored without executing port write, which
+    // would take emulated time
+    #[cfg(feature = "sound")]
+    {
+        let mic = block_data[3] & 0x08 != 0;
+        let ear = block_data[3] & 0x10 != 0;
+        emulator.controller.mixer.beeper.change_state(ear, mic);
+    }
 
     // chBorder
-    // Setting the border after the out to 0xfe above because that too
-    // sets the border color.
-    emulator.controller.border_color = ZXColor::from_bits(block_data[0] & 0x07);
+    emulator
+        .controller
+        .set_border_color(0, ZXColor::from_bits(block_data[0] & 0x07));
     Ok(())
 }
 
